@@ -258,6 +258,7 @@ def _safe_names(fn):
 def check(ctx, rep):
     from . import c28, _share
     _share.share(ctx, rep, c28, ('illegal.only-single',), 'the name lookup shortens a name only by a single trailing dot: a dots-only element cannot be cut down to `..`')
+    _share.share(ctx, rep, c28, ('normalise.upper-split-truncate',), 'normalising to 8.3 only cuts at fixed widths: it strips nothing, so an element of dots and blanks cannot normalise to `..` after the dot-entry test')
     # ---- (i) who may call ------------------------------------------------------------
     n_sites = 0
     for fn in ctx.idx.functions('pcbasic/basic/'):
